@@ -97,7 +97,7 @@ def _dd_bundles(tier, seed, find, props, comps, widths_small, extra_fams=True, d
     # probe-directed structures: a concrete pre-scan (random cost vectors, microseconds per run) looks for structures on
     # which SOME concrete probe already violates an obligation of this property; the symbolic engine then decides them
     # (nothing is found on a tree where the property holds; the scan only chooses WHERE the solver looks)
-    nscan = 500 if tier == "quick" else 3000
+    nscan = 4000 if tier == "quick" else 30000
     scan_fams = [dict(n=4, b=3, d=2, setnext=1), dict(n=5, b=2, d=2, setnext=1), dict(n=4, b=3, d=2, setnext=1, long_arcs=1, depth_free=1), dict(n=4, b=2, d=2, setnext=1, bonus=1, perm=1)]
     scan_keys = [(fam, dd, comp, w) for fam in scan_fams for dd in dds for comp in comps for w in (1, 2)]
     scan_hits = _pfind(find, [(([], fam, 2, base + 1), dict(dyn=dict(notes="VIOLATION", dd=dd, comp=comp, width=w, roots=0, props=props, tries=5), count=nscan)) for (fam, dd, comp, w) in scan_keys])
@@ -193,7 +193,7 @@ def _solve_bundles(tier, seed, find, props, modes, fams=None, dds=DD3, caches=("
                 for ca in caches:
                     out.append(P(kind="solve", dd=dd, cache=ca, fringe=fringes[i % len(fringes)], width="2", mode=modes[0], seed=s, rub="none", rev=i % 2, sym_init=0, warm=0, kmax=kmax, props=props, **deep, **lim))
     if "plain" in modes:
-        nscan = 300 if tier == "quick" else 2000
+        nscan = 4000 if tier == "quick" else 30000
         scan_fams = [dict(n=4, b=3, d=2, setnext=1), dict(n=5, b=2, d=2, setnext=1, depth_free=1), dict(n=4, b=3, d=2, setnext=1, long_arcs=1, depth_free=1)]
         scan_keys = [(fam, dd, ca, fr) for fam in scan_fams for dd in dds for ca in caches for fr in fringes]
         scan_hits = _pfind(find, [(([], fam, 1, base + 1), dict(dyn=dict(_solve=True, notes="VIOLATION", dd=dd, cache=ca, fringe=fr, width=1, tries=4), count=nscan)) for (fam, dd, ca, fr) in scan_keys])
@@ -478,8 +478,8 @@ def plan(prop, tier, seed, find):
                     i += 1
                     b.append(P(kind="solve", dd=dd, cache=ca, fringe=("nodup" if i % 3 == 0 else "simple"), width="1,2,3", mode="plain", seed=s, rub="none", rev=i % 2, perm=(i // 2) % 2, props="C15,C02", **f, **lim))
         # probe-directed: structures on which a concrete probe run of the pooled solver already misbehaves (budget, wrong value)
-        scan_keys = [(famx, ca, w, fr) for famx in (fam, fam4, dict(n=5, b=2, d=2, setnext=1, long_arcs=1, depth_free=1, nsym=7)) for ca in ("0", "1") for w in (1, 2) for fr in ("simple", "nodup")]
-        scan_hits = _pfind(find, [(([], {k: v for k, v in famx.items() if k != "nsym"}, 2, base + 1), dict(dyn=dict(_solve=True, notes="VIOLATION", dd="pooled", cache=ca, fringe=fr, width=w, tries=4), count=(600 if tier == "quick" else 4000))) for (famx, ca, w, fr) in scan_keys])
+        scan_keys = [(famx, ca, w, fr) for famx in (fam, fam4, dict(n=5, b=2, d=2, setnext=1, long_arcs=1, depth_free=1, nsym=7), dict(n=6, b=2, d=2, setnext=1, long_arcs=1, depth_free=1, nsym=7), dict(n=5, b=3, d=2, setnext=1, long_arcs=1, depth_free=1, nsym=7)) for ca in ("0", "1") for w in (1, 2) for fr in ("simple", "nodup")]
+        scan_hits = _pfind(find, [(([], {k: v for k, v in famx.items() if k != "nsym"}, 2, base + 1), dict(dyn=dict(_solve=True, notes="VIOLATION", dd="pooled", cache=ca, fringe=fr, width=w, tries=4), count=(20000 if tier == "quick" else 100000))) for (famx, ca, w, fr) in scan_keys])
         for (famx, ca, w, fr), hits in zip(scan_keys, scan_hits):
             if True:
                 if True:
